@@ -15,9 +15,14 @@ MAXTASKS = 20
 
 
 def pool():
-    from pyanalyze.value import NO_RETURN_VALUE, GenericValue, KnownValue, TypedValue
+    from pyanalyze.value import NO_RETURN_VALUE, AnySource, AnyValue, GenericValue, KnownValue, TypedValue
     K, TV = KnownValue, TypedValue
-    return [K(1), K("a"), TV(int), TV(str), TV(float), TV(bool), TV(object), TV(int) | TV(str), TV(int) | K(None), K(None), GenericValue(list, [TV(int)]), K(True)]
+    return [K(1), K("a"), TV(int), TV(str), TV(float), TV(bool), TV(object), TV(int) | TV(str), TV(int) | K(None), K(None), GenericValue(list, [TV(int)]), K(True),
+            AnyValue(AnySource.explicit)]
+
+
+NP = 13          # pool size; slot i < NP is a lower bound with pool value i, slot NP + i an upper bound
+ANY_SLOT = 12    # an Any bound constrains nothing (it only takes part in the order-independence and existence clauses)
 
 
 def constraint_lists():
@@ -39,13 +44,13 @@ def tv():
 
 def multisets(tier):
     """index multisets over 2*len(pool) bound slots (lower i / upper i)"""
-    n = 24
+    n = 2 * NP
     kmax = 3 if tier == "quick" else 4
     out = []
     for k in range(1, kmax + 1):
         if k == 4:
             # four bounds: restricted to the 8 class-like pool values to keep the space at ~1e6 sequences
-            idx = [i for i in range(n) if (i % 12) in (0, 2, 3, 4, 5, 6, 7, 9)]
+            idx = [i for i in range(n) if (i % NP) in (0, 2, 3, 4, 5, 6, 7, 9, ANY_SLOT)]
             out.extend(itertools.combinations(idx, 4))
         else:
             out.extend(itertools.combinations(range(n), k))
@@ -53,7 +58,7 @@ def multisets(tier):
 
 
 def bounds(tier):
-    return {"pool": 12, "max_bounds": 3 if tier == "quick" else 4, "multisets": len(multisets(tier)), "constraint_lists": 4, "call_forms": len(FORMS)}
+    return {"pool": NP, "max_bounds": 3 if tier == "quick" else 4, "multisets": len(multisets(tier)), "constraint_lists": 4, "call_forms": len(FORMS)}
 
 
 def units(tier):
@@ -106,9 +111,9 @@ def _api(res, tier, lo, hi, only=None):
                 continue
             res.states += 1
             order = mi * 4 + ci
-            bnds = [(LowerBound if i < 12 else UpperBound)(T, P[i % 12]) for i in combo]
-            lows = [exts[i % 12] for i in combo if i < 12]
-            ups = [exts[i % 12] for i in combo if i >= 12]
+            bnds = [(LowerBound if i < NP else UpperBound)(T, P[i % NP]) for i in combo]
+            lows = [exts[i % NP] for i in combo if i < NP and i % NP != ANY_SLOT]
+            ups = [exts[i % NP] for i in combo if i >= NP and i % NP != ANY_SLOT]
             if cons is not None:
                 bnds = bnds + [IsOneOf(T, cons)]
             verdicts = {}
@@ -126,7 +131,7 @@ def _api(res, tier, lo, hi, only=None):
                     res.outcomes["solution-any"] += 1
                     continue
                 eS = ext(S)
-                label = ",".join(("L" if i < 12 else "U") for i in combo) + ("+C" if cons else "")
+                label = ",".join((("L" if i < NP else "U") + ("a" if i % NP == ANY_SLOT else "")) for i in combo) + ("+C" if cons else "")
                 case = {"mode": "api", "combo": list(combo), "cons": ci, "order": order}
                 desc = "bounds [%s] -> %s" % (", ".join(str(b) for b in seq), S)
                 bad = None
@@ -145,23 +150,23 @@ def _api(res, tier, lo, hi, only=None):
                     break
             if len(verdicts) > 1:
                 res.outcomes["order-dependent"] += 1
-                res.violation({"kind": "order-dependent-verdict", "bounds": ",".join(("L" if i < 12 else "U") for i in combo) + ("+C" if cons else "")},
+                res.violation({"kind": "order-dependent-verdict", "bounds": ",".join((("L" if i < NP else "U") + ("a" if i % NP == ANY_SLOT else "")) for i in combo) + ("+C" if cons else "")},
                               {"mode": "api", "combo": list(combo), "cons": ci, "order": order},
                               "bounds %s: solved in order %s, error in order %s" % ([str(b) for b in bnds], verdicts[True], verdicts[False]))
             elif False in verdicts:
                 # error in every order: is there really no solution?
-                cands = list(exts) + [ext(unite_values(*[P[i % 12] for i in combo if i < 12]))] if lows else list(exts)
+                cands = list(exts) + [ext(unite_values(*[P[i % NP] for i in combo if i < NP and i % NP != ANY_SLOT]))] if lows else list(exts)
                 if cons is not None:
                     cands = [ext(c) for c in cons]
                 sat = [c for c in cands if all(not (l & ~c) for l in lows) and all(not (c & ~u) for u in ups)]
                 res.validated += 1
                 res.outcomes["error/%s" % ("justified" if not sat else "solution-exists")] += 1
                 if sat:
-                    res.violation({"kind": "error-but-solution-exists", "bounds": ",".join(("L" if i < 12 else "U") for i in combo) + ("+C" if cons else "")},
+                    res.violation({"kind": "error-but-solution-exists", "bounds": ",".join((("L" if i < NP else "U") + ("a" if i % NP == ANY_SLOT else "")) for i in combo) + ("+C" if cons else "")},
                                   {"mode": "api", "combo": list(combo), "cons": ci, "order": order},
                                   "bounds %s are rejected although a candidate satisfying all of them exists" % [str(b) for b in bnds])
         if mi % 397 == 0:
-            res.sample({"bounds": [str((LowerBound if i < 12 else UpperBound)(T, P[i % 12])) for i in combo]})
+            res.sample({"bounds": [str((LowerBound if i < NP else UpperBound)(T, P[i % NP])) for i in combo]})
 
 
 # ---- generic calls ---------------------------------------------------------------------------------
@@ -181,7 +186,7 @@ def takes_bool(a: bool) -> None: pass
 def takes_bytes(a: bytes) -> None: pass
 def to_str(a: int) -> str: return str(a)
 '''
-LITS = ["1", "True", '"a"', "None", "1.5", 'b"x"']
+LITS = ["1", "True", '"a"', "None", "1.5", 'b"x"', "un"]      # un: an unannotated parameter of the caller (Any): contributes no bound
 CBS = ["takes_object", "takes_int", "takes_float", "takes_str", "takes_bool", "takes_bytes"]
 # (def source, parameter kinds: 'T' / 'TB' / 'TC' literal parameter, 'cbTB' / 'cbTC' / 'cbT' callback parameter, typevar returned)
 FORMS = [
@@ -195,6 +200,11 @@ FORMS = [
     ("def f(a: TB, b: Callable[[TB], None]) -> TB: return a", ["TB", "cbTB"], "TB"), ("def f(a: TC, b: Callable[[TC], None]) -> TC: return a", ["TC", "cbTC"], "TC"),
     ("def f(a: T, b: Callable[[T], None]) -> T: return a", ["T", "cbT"], "T"),
     ("def f(a: Callable[[TB], None], b: TB) -> TB: return b", ["cbTB", "TB"], "TB"),
+    ("def f(a: Callable[[T], None], b: T, c: T) -> T: return b", ["cbT", "T", "T"], "T"),
+    # the return annotation does not mention the type variable ("!"): the solution is not visible, the verdict clauses remain
+    ("def f(a: TC, b: TC) -> None: return None", ["TC", "TC"], "TC!"), ("def f(a: TB, b: Callable[[TB], None]) -> bool: return True", ["TB", "cbTB"], "TB!"),
+    ("def f(a: Callable[[T], None], b: T) -> bool: return True", ["cbT", "T"], "T!"), ("def f(a: Callable[[T], None], b: T, c: T) -> int: return 0", ["cbT", "T", "T"], "T!"),
+    ("def f(a: T, b: Callable[[T], None], c: Callable[[T], None]) -> None: return None", ["T", "cbT", "cbT"], "T!"),
 ]
 CB_PARAM = {"takes_object": "object", "takes_int": "int", "takes_float": "float", "takes_str": "str", "takes_bool": "bool", "takes_bytes": "bytes"}
 DECL = {"T": None, "TB": "float", "TC": ("int", "str")}
@@ -218,7 +228,7 @@ def _calls(res, tier, fi, only=None):
     for c in calls:
         for p in perms:
             lines.append("    f(%s)" % ", ".join("%s=%s" % (names[i], c[i]) for i in p))
-    src = pre + src_def + "\ndef caller():\n" + "\n".join(lines) + "\n"
+    src = pre + src_def + "\ndef caller(un):\n" + "\n".join(lines) + "\n"
     first = src.count("\n") - len(lines) + 1
     fails, tree, mod = check(src, visitor_cls=Rec, want_module=True)
     res.transitions += 1
@@ -230,12 +240,14 @@ def _calls(res, tier, fi, only=None):
         stmts = {st.lineno: st for st in tree.body[-1].body}
         objs = _objs()
         py = {n: eval(n, ns) for n in ("object", "int", "float", "str", "bool", "bytes")}
+        visible = not rtv.endswith("!")
+        rtv = rtv.rstrip("!")
         decl = DECL[rtv[:2] if rtv != "T" else "T"]
         li = 0
         for ci, c in enumerate(calls):
             res.states += 1
             order = fi * 100000 + ci
-            lows = [eval(c[i], ns) for i, k in enumerate(kinds) if not k.startswith("cb")]
+            lows = [eval(c[i], ns) for i, k in enumerate(kinds) if not k.startswith("cb") and c[i] != "un"]
             ups = [CB_PARAM[c[i]] for i, k in enumerate(kinds) if k.startswith("cb")]
             verdicts = {}
             case = {"mode": "calls", "form": fi, "call": list(c), "order": order}
@@ -248,7 +260,7 @@ def _calls(res, tier, fi, only=None):
                 if diagnosed:
                     continue
                 vals = getattr(stmts[ln].value, "_inf", None)
-                if not vals:
+                if not vals or not visible:
                     continue
                 S = vals[-1]
                 res.validated += 1
@@ -275,6 +287,18 @@ def _calls(res, tier, fi, only=None):
                 if bad:
                     res.violation({"kind": bad, "form": "/".join(kinds), "route": "call"}, case, "%s is accepted with %s = %s" % (desc, rtv, S))
                     break
+            if verdicts == {False: verdicts.get(False)} and lows:
+                # accepted in every order: a value for the type variable must exist.  It exists iff every lower-bound object is a member of every
+                # upper bound and of the declared bound, and (constraints) some constraint contains all of them and is a subtype of every upper bound
+                if isinstance(decl, tuple):
+                    solvable = any(all(member(o, py[d]) for o in lows) and all(_subtype(d, u) for u in ups) for d in decl)
+                else:
+                    solvable = all(member(o, py[u]) for o in lows for u in ups) and (decl is None or all(member(o, py[decl]) for o in lows))
+                res.validated += 1
+                res.outcomes["call:accepted/%s" % ("solvable" if solvable else "unsolvable")] += 1
+                if not solvable:
+                    res.violation({"kind": "accepted-but-no-solution-exists", "form": "/".join(kinds), "route": "call", "visible": str(int(visible)), "any_arg": str(int("un" in c))}, case,
+                                  "%s is accepted although no value of %s satisfies lower bounds %r and upper bounds %r" % (desc, rtv, lows, ups))
             if len(verdicts) > 1:
                 res.violation({"kind": "order-dependent-verdict", "form": "/".join(kinds), "route": "call"}, case,
                               "%s: diagnosed with argument order %s, accepted with order %s" % (desc, verdicts[True], verdicts[False]))
